@@ -55,6 +55,9 @@ class StatefulThing(wiring.Component):
         # a reducer without an identity over a list that is empty for a component without entries
         terms = []
         for res, res_name, res_range in self.bus.memory_map.resources():
+            last = res_range[1] - 1
+            if res_range[0] is last:            # identity comparison between integers
+                continue
             terms.append(res)
         m.d.comb += self.bus.eq(reduce(or_, terms))
         return m
